@@ -133,8 +133,8 @@ def load_module(hashed_grammar, file_io, cache_path=None):
 
 
 def _load_from_file_system(hashed_grammar, path, p_time, cache_path=None):
-    cache_path = _get_hashed_path(hashed_grammar, path, cache_path=cache_path)
     try:
+        cache_path = _get_hashed_path(hashed_grammar, path, cache_path=cache_path)
         if p_time > os.path.getmtime(cache_path):
             # Cache is outdated
             return None
@@ -145,7 +145,11 @@ def _load_from_file_system(hashed_grammar, path, p_time, cache_path=None):
                 module_cache_item = pickle.load(f)
             finally:
                 gc.enable()
-    except FileNotFoundError:
+        if not isinstance(module_cache_item, _NodeCacheItem):
+            return None
+    except Exception:
+        # A missing, unreadable, truncated or otherwise corrupt cache file is
+        # simply a cache miss.
         return None
     else:
         _set_cache_item(hashed_grammar, path, module_cache_item)
